@@ -282,6 +282,16 @@ def check_bs(case, ctx):
     r = "repeat:" + name
     eq, why = outcome_equal(b1, b2)
     ctx.ok("repeating the batch run gives bit-identical output", eq, {"why": why}, route=r)
+    if name.startswith("AngularRate"):
+        # the class's public helper (the reference integration its docstring offers for comparison) called by hand on the recording the caller
+        # holds, then the run repeated on that very recording: the same attitudes
+        import ahrs as _ahrs
+        g_held = g.copy()
+        hp = call(lambda: _ahrs.filters.AngularRate().integrate_angular_positions(g_held, 0.01, ["angles", "quaternion", "rotmat"][seed % 3]))
+        if hp.ok:
+            b3 = call(run_batch, name, kw, g_held, a, m, seed, order)
+            eq3, why3 = outcome_equal(b1, b3)
+            ctx.ok("a run on the recording after integrate_angular_positions() was called on it by hand gives the same attitudes", eq3, {"why": why3}, route=r)
     if name == "UKF" and not b1.ok and b1.exc_name == "LinAlgError":
         ctx.note("UKF raised LinAlgError on this history (C03): batch-vs-stream not evaluated")
     elif name in STREAMERS or name.startswith("AngularRate"):
